@@ -258,6 +258,7 @@ package main
 //@   atcall github.com/pquerna/otp/totp.Validate requires (passcode string, secret string) :: timeNanos(old(state.totpLocalRateLimit[username].lastCheckTime)) + 2000000000 <= nowNanos()  #C14.totp-spacing @C14
 //@   atcall github.com/pquerna/otp/totp.Validate requires (passcode string, secret string) :: timeNanos(old(state.totpLocalRateLimit[username].lockoutExpirationTime)) <= nowNanos()  #C14.totp-lockout-respected @C14
 //@   ensures ret0 && ret1 == nil ==> state.totpLocalRateLimit[username].failCount == 0                     #C14.totp-reset-on-success @C14
+//@   ensures !ret0 && ret1 == nil && state.totpLocalRateLimit[username].failCount != old(state.totpLocalRateLimit[username].failCount) && state.totpLocalRateLimit[username].failCount % 5 == 0 ==> timeNanos(state.totpLocalRateLimit[username].lockoutExpirationTime) >= nowNanos() + 3600000000000  #C14.totp-lockout-escalates @C14
 //@   ensures !ret0 && ret1 == nil && old(state.totpLocalRateLimit[username].failCount) < 4000000000 && timeNanos(old(state.totpLocalRateLimit[username].lastCheckTime)) + 2000000000 <= nowNanos() && timeNanos(old(state.totpLocalRateLimit[username].lockoutExpirationTime)) <= nowNanos() && ghostProfile.LastSuccessfullTOTPCounter != totpPeriodOf(t) ==> state.totpLocalRateLimit[username].failCount >= 1  #C14.totp-failure-counted @C14
 
 //@ func (*RuntimeState).VIPAuthHandler
